@@ -122,7 +122,8 @@ def to_hashable(data: Any) -> Any:
         return tuple(map(to_hashable, data))
     elif isinstance(data, dict):
         sorted_keys = sorted(data)
-        return tuple(sorted_keys + [to_hashable(data[k]) for k in sorted_keys])
+        # mark dict in order to distinguish it from a list, e.g. {"a": 0} and ["a", 0]
+        return (dict, *sorted_keys, *(to_hashable(data[k]) for k in sorted_keys))
     else:
         return data
 
